@@ -2,6 +2,7 @@
   C17 — Consumers, light clients and CCV channels are bound one to one.
 -/
 import ICS.Lemmas.Prov
+import ICS.Model.Consumer
 namespace ICS.Props.C17
 open ICS ICS.Provider
 
@@ -100,5 +101,60 @@ example :
     chanOpenTry s true "provider" "consumer" "1" ["connection-0", "connection-0"] connOf = false ∧
     ((chanOpenConfirm s "channel-1" (some ["connection-0"]) connOf).bind fun s1 =>
       chanOpenConfirm s1 "channel-2" (some ["connection-0"]) connOf).isNone := by decide
+
+/-! ### consumer side -/
+
+/-- a consumer opens CCV channels only over its recorded provider client: ordered, consumer → provider
+    ports, supported version (blank = default), one hop, and only while no provider channel is set -/
+theorem cons_init_accept_only_if (s : ICS.Consumer.State) (ordered : Bool) (port cport ver : String) (hops : List String)
+    (connClient : String → Option String) (pc : Option String)
+    (h : ICS.Consumer.chanOpenInit s ordered port cport ver hops connClient pc = true) :
+    s.pchan = none ∧ ordered = true ∧ port = "consumer" ∧ cport = "provider" ∧
+    (ver = "1" ∨ ICS.Consumer.blank ver = true) ∧
+    ∃ hop cl, hops = [hop] ∧ connClient hop = some cl ∧ pc = some cl := by
+  unfold ICS.Consumer.chanOpenInit at h
+  simp only [Bool.and_eq_true, beq_iff_eq] at h
+  obtain ⟨⟨⟨⟨⟨h1, h2⟩, h3⟩, h4⟩, h5⟩, h6⟩ := h
+  refine ⟨by cases hp : s.pchan <;> simp [hp] at h1 ⊢, h2, h3, h5, ?_, ?_⟩
+  · by_cases hb : ICS.Consumer.blank ver = true
+    · exact Or.inr hb
+    · left; simp only [hb] at h4; simpa using h4
+  · match hops, h6 with
+    | [hop], h6 =>
+      simp only at h6
+      cases hc : connClient hop with
+      | none => simp [hc] at h6
+      | some cl =>
+        cases hpc : pc with
+        | none => simp [hc, hpc] at h6
+        | some p =>
+          simp only [hc, hpc, beq_iff_eq] at h6
+          exact ⟨hop, cl, rfl, hc, by rw [h6]⟩
+
+/-- … and never accepts a handshake started by the other side -/
+theorem cons_try_confirm_rejected : ICS.Consumer.chanOpenTry = false ∧ ICS.Consumer.chanOpenConfirm = false := ⟨rfl, rfl⟩
+
+/-- once a provider channel is established no further CCV channel is opened or acknowledged -/
+theorem cons_no_second_channel (s : ICS.Consumer.State) (pc : String) (hs : s.pchan = some pc)
+    (ordered : Bool) (port cport ver : String) (hops : List String) (cc : String → Option String) (p : Option String)
+    (md : Option String) :
+    ICS.Consumer.chanOpenInit s ordered port cport ver hops cc p = false ∧ ICS.Consumer.chanOpenAck s md = false := by
+  simp [ICS.Consumer.chanOpenInit, ICS.Consumer.chanOpenAck, hs]
+
+/-- the provider channel is the one on which the first VSC packet arrives, and it never changes:
+    a VSC packet on any other channel is not accepted -/
+theorem cons_adopts_first_channel (rank : Nat → Nat) (s : ICS.Consumer.State) (chan : String) (id : Nat)
+    (ups : List ValSet.Update) (acks : List Nat) (hid : id ≠ 0) :
+    (s.pchan = none → (ICS.Consumer.onRecvVSC rank s chan id (some ups) acks).1.pchan = some chan) ∧
+    (∀ pc, s.pchan = some pc → pc ≠ chan → (ICS.Consumer.onRecvVSC rank s chan id (some ups) acks).2 = ICS.Consumer.RecvResult.panic) ∧
+    (∀ pc, s.pchan = some pc → (ICS.Consumer.onRecvVSC rank s chan id (some ups) acks).1.pchan = some pc) := by
+  have hid' : (id == 0) = false := by simpa using hid
+  refine ⟨?_, ?_, ?_⟩
+  · intro h; simp [ICS.Consumer.onRecvVSC, hid', h]
+  · intro pc h hne; simp [ICS.Consumer.onRecvVSC, hid', h, hne]
+  · intro pc h
+    by_cases hc : pc = chan
+    · subst hc; simp [ICS.Consumer.onRecvVSC, hid', h]
+    · simp [ICS.Consumer.onRecvVSC, hid', h, hc]
 
 end ICS.Props.C17
